@@ -94,7 +94,17 @@ RxApply(R, c) ==
 (* rh (rendered size in cells), cw, ch (cell size in px), ow, oh (original *)
 (* size in px), compress, z, blend, jpeg, rff, animated, frame, readable,  *)
 (* modeclass ("opaque" | "alpha" | "palette"), alphakind ("none" | "float" *)
-(* | "bgterm" | "bghex").                                                  *)
+(* | "bgterm" | "bghex"), unstable, cw2, ch2.                              *)
+(*                                                                         *)
+(* UNSTABLE environment (h.unstable): the terminal's cell size changes     *)
+(* while the render runs; successive get_cell_size() reads alternate       *)
+(* between (cw, ch) and (cw2, ch2).  The clauses then do not presuppose    *)
+(* WHICH read the code uses for the width, the height or the size          *)
+(* comparison; they require internal consistency: one admissible           *)
+(* resolution for the whole render, every strip the same s x v, rh strips  *)
+(* carrying rows [k*v, (k+1)*v), pixels equal to the reference at the      *)
+(* TRANSMITTED resolution s x v*rh.  With a stable cell size the sets      *)
+(* below are singletons and the clauses are the exact rule.                *)
 (***************************************************************************)
 Area(p) == p[1] * p[2]
 RenderPx(h) == <<h.rw * h.cw, h.rh * h.ch>>
@@ -105,12 +115,21 @@ MinimalRenderSize(orig, px) == IF Area(px) < Area(orig) THEN px ELSE orig
 
 IsLines(h) == h.method = "lines"
 
-\* resolution of the whole transmitted picture
-Res(h) == IF h.method = "whole" THEN MinimalRenderSize(OrigPx(h), RenderPx(h)) ELSE RenderPx(h)
+\* cell sizes a get_cell_size() read may have returned during this render
+CellSizes(h) == IF h.unstable THEN {<<h.cw, h.ch>>, <<h.cw2, h.ch2>>} ELSE {<<h.cw, h.ch>>}
+\* render px sizes (width and height may stem from different reads)
+PxSet(h) == {<<h.rw * c1[1], h.rh * c2[2]>> : c1 \in CellSizes(h), c2 \in CellSizes(h)}
+\* minimal render sizes (the comparison and the size used may stem from different reads)
+MinSet(h) == {(IF Area(pa) < Area(OrigPx(h)) THEN pb ELSE OrigPx(h)) : pa \in PxSet(h), pb \in PxSet(h)}
+
+\* admissible resolutions of the whole transmitted picture
+\* (stable cell size: exactly RenderPx for LINES, MinimalRenderSize(orig, RenderPx) for WHOLE)
+ResSet(h) == IF h.method = "whole" THEN MinSet(h) ELSE PxSet(h)
 
 NStrips(h) == IF IsLines(h) THEN h.rh ELSE 1
-StripH(h, res) == IF IsLines(h) THEN h.ch ELSE res[2]
-StripRows(h, res, k) == <<k * StripH(h, res), (k + 1) * StripH(h, res)>>
+\* rows carried by strip k when every strip is hpx rows high
+StripRowsOf(hpx, k) == <<k * hpx, (k + 1) * hpx>>
+NoFirst == <<-1, -1>>
 
 \* pixel format after _get_render_data: transparency survives only with a float alpha
 \* (threshold unused by graphics styles) on a source that can carry transparency
@@ -124,11 +143,11 @@ ExpMode(h) == IF ExpFormat(h) = 32 THEN "RGBA" ELSE "RGB"
 (*   tot  base64 characters accumulated over its chunks                    *)
 (*   e    projections of the assembled payload (decoded by Python):        *)
 (*        tb64, pad, dlen, ilen, rows_lo, rows_hi, pix                     *)
+(*   first  <<s, v>> of the render's first transmission (NoFirst if k = 0) *)
 (***************************************************************************)
-KittyDoneClause(h, k, ctl, tot, e) ==
-  LET res == Res(h)
-      raw == IF ctl.o = "z" THEN e.ilen ELSE e.dlen
-      rows == StripRows(h, res, k)
+KittyDoneClause(h, k, ctl, tot, e, first) ==
+  LET raw == IF ctl.o = "z" THEN e.ilen ELSE e.dlen
+      rows == StripRowsOf(ctl.v, k)
   IN
   IF ctl.a # "T" THEN "action: not a transmit-and-display command"
   ELSE IF ctl.t \notin {"d", ""} THEN "medium: not a direct transmission"
@@ -143,8 +162,9 @@ KittyDoneClause(h, k, ctl, tot, e) ==
   ELSE IF ctl.s < 1 \/ ctl.v < 1 THEN "size-keys: s / v missing"
   ELSE IF raw # ctl.s * ctl.v * (ctl.f \div 8)
     THEN "payload-size: decoded payload is not s*v*(f/8) bytes"
-  ELSE IF ctl.s # res[1] THEN "resolution: s is not the required pixel width"
-  ELSE IF ctl.v # StripH(h, res) THEN "resolution: v is not the required pixel height"
+  ELSE IF <<ctl.s, ctl.v * NStrips(h)>> \notin ResSet(h)
+    THEN "resolution: s x v is not the required pixel size (render size per strip for LINES, minimal render size for WHOLE)"
+  ELSE IF k > 0 /\ <<ctl.s, ctl.v>> # first THEN "strip-uniform: the strips of one render differ in s / v"
   ELSE IF ctl.c # h.rw THEN "columns: c is not the rendered width"
   ELSE IF ctl.r # (IF IsLines(h) THEN 1 ELSE h.rh) THEN "rows: r is not 1 per strip / rendered height"
   ELSE IF ctl.C # 1 THEN "cursor-policy: C is not 1"
@@ -238,9 +258,10 @@ ReadFromFileGate(policy, animated, readable, method, origArea, renderArea, modec
   /\ origArea <= renderArea
   /\ (modeclass = "opaque" \/ (alphakind = "float" /\ modeclass # "palette"))
 
-Gate(h) == ReadFromFileGate(h.rff, h.animated, h.readable, h.method, Area(OrigPx(h)),
-                            Area(RenderPx(h)), h.modeclass, h.alphakind)
-GateAsWhole(h) == Gate([h EXCEPT !.method = "whole"])
+\* admissible gate outcomes (a singleton unless the cell size is unstable)
+GateSet(h) == {ReadFromFileGate(h.rff, h.animated, h.readable, h.method, Area(OrigPx(h)),
+                                Area(px), h.modeclass, h.alphakind) : px \in PxSet(h)}
+GateAsWholeSet(h) == GateSet([h EXCEPT !.method = "whole"])
 
 \* re-encoded renders: JPEG iff enabled and the render has no transparency, else PNG
 ReencKind(h) == IF h.jpeg >= 0 /\ ExpFormat(h) = 24 THEN "jpeg" ELSE "png"
@@ -251,24 +272,22 @@ AnimFallback(h) == h.method = "anim" /\ ~NativeAnim(h)
 
 ExpKinds(h) ==
   IF NativeAnim(h) THEN (IF h.readable THEN {"file"} ELSE {"file", "gif", "png", "webp"})
-  ELSE IF AnimFallback(h) THEN {ReencKind(h)} \cup (IF GateAsWhole(h) THEN {"file"} ELSE {})
-  ELSE IF Gate(h) THEN {"file"}
-  ELSE {ReencKind(h)}
+  ELSE IF AnimFallback(h) THEN {ReencKind(h)} \cup (IF TRUE \in GateAsWholeSet(h) THEN {"file"} ELSE {})
+  ELSE (IF TRUE \in GateSet(h) THEN {"file"} ELSE {}) \cup (IF FALSE \in GateSet(h) THEN {ReencKind(h)} ELSE {})
 
 \* admissible resolutions of a re-encoded picture
-ExpRes(h) ==
-  IF AnimFallback(h) THEN {RenderPx(h), MinimalRenderSize(OrigPx(h), RenderPx(h))}
-  ELSE {Res(h)}
+ExpRes(h) == IF AnimFallback(h) THEN PxSet(h) \cup MinSet(h) ELSE ResSet(h)
 
 PayloadKind(e) == IF e.isfile = 1 THEN "file" ELSE e.kind
 
 HasKey(e, key) == \E i \in DOMAIN e.keys : e.keys[i] = key
 
-\* clauses of the k-th (0-based) inline-image command of a render
-ITermClause(h, k, e) ==
+\* clauses of the k-th (0-based) inline-image command of a render;
+\* first = <<width, height>> of the render's first picture (NoFirst if k = 0)
+ITermClause(h, k, e, first) ==
   LET kind == PayloadKind(e)
       res == <<e.imgw, (IF IsLines(h) THEN e.imgh * h.rh ELSE e.imgh)>>
-      rows == StripRows(h, res, k)
+      rows == StripRowsOf(e.imgh, k)
   IN
   IF e.proto # "iterm2" THEN "protocol: not an iTerm2 inline image command"
   ELSE IF ~HasKey(e, "size") \/ ~HasKey(e, "width") \/ ~HasKey(e, "height")
@@ -286,6 +305,7 @@ ITermClause(h, k, e) ==
   ELSE IF kind = "file" THEN "ok"
   ELSE IF NativeAnim(h) THEN (IF <<e.imgw, e.imgh>> # OrigPx(h) THEN "native-anim: re-saved animation has another size" ELSE "ok")
   ELSE IF res \notin ExpRes(h) THEN "resolution: the picture does not have the required pixel size"
+  ELSE IF k > 0 /\ <<e.imgw, e.imgh>> # first THEN "strip-uniform: the strips of one render differ in size"
   ELSE IF <<e.rows_lo, e.rows_hi>> # rows THEN "strip-rows: the command does not carry rows [k*h,(k+1)*h)"
   ELSE IF kind = "jpeg" THEN (IF e.imgmode \notin {"RGB", "L"} THEN "jpeg-mode" ELSE "ok")
   ELSE IF e.imgmode # ExpMode(h) THEN "format: PNG mode does not match the alpha setting / source mode"
